@@ -59,6 +59,18 @@ CLAIMED = {
               "of sequences of create/eval/destroy (follows from (1)+(2) and C++ object lifetime)."),
         technique="static-storage inventory over the resolved program (all instantiations) + keyed-storage typestate rule",
         ref="DESIGN.md section 4 C14"),
+    "C18": dict(
+        text=("Decides the robustness clause and the structural half of the round-trip clause: (1) every JSON parser function "
+              "consumes the input text only through at()/substr()/size() or forwards it to another parser function - every "
+              "other accessor is a violation, and a positive fixture proves on each run that the rule can fire - so no input "
+              "can be read past its end; (2) the recursive descent threads a depth argument that strictly increases around "
+              "every recursion cycle and is tested against a limit whose failing arm throws, so arbitrarily deep nesting is "
+              "an exception, not a stack overflow; (3) the writer's escape table composed with the reader's is the identity "
+              "on everything the writer escapes, the writer escapes both reader-special characters and emits all other bytes "
+              "unchanged; (4) every switch over the value kind is exhaustive and the number probe cannot capture booleans. "
+              "Not decided: numeric round trip (six printed decimals), key order, values of parse_num."),
+        technique="who-may-access rule with positive fixture, recursion-cycle depth-argument analysis on the call graph, table extraction and composition",
+        ref="DESIGN.md section 4 C18"),
 }
 
 NOT_YET = "check not built yet in this session (design in DESIGN.md section 4); will be claimed once its rules run clean both ways"
